@@ -121,3 +121,33 @@ def reraise_control_flow(exc):
             raise e
         e = e.__context__ if e.__context__ is not None else e.__cause__
         seen += 1
+
+
+NOTES = []
+
+
+def note(*a):
+    """Debug breadcrumbs shown by the runner next to a counterexample (never affects verdicts)."""
+    try:
+        NOTES.append(" ".join(str(x) for x in a)[:800])
+        del NOTES[:-6]
+    except BaseException:
+        pass
+
+
+def _warm_up():
+    """First use of some C extensions builds cffi types lazily; under CrossHair's tracer that
+    initialisation fails (patched hash()).  Use them once before any symbolic execution."""
+    try:
+        from comm.utils import keccak_256
+        keccak_256(b"warm-up")
+    except Exception:
+        pass
+    try:
+        import hashlib
+        hashlib.sha256(b"warm-up").digest()
+    except Exception:
+        pass
+
+
+_warm_up()
